@@ -242,22 +242,22 @@ def run(ctx):
            {'writers': sorted(w), 'unexpected': extra}, node=(w[extra[0]] if extra else None), construct='.channelized_stds writers')
     ctx.note(f'RNG: {len(rng_sites)} default_rng sites, {len(drawers)} drawing functions, {n_calls} internal calls of them')
     # (e) wall-clock time flows only into t_start's default and the stage timers
-    for fi, n in time_sites:
-        ok = False
+    def _time_flow_ok(fi, n, depth=0):
+        """the statement holding `n` is a timer update, the t_start default, or binds a local all of whose reads are"""
         for st in ast.walk(fi.node):
+            if isinstance(st, ast.AugAssign) and any(x is n for x in ast.walk(st.value)):
+                return isinstance(st.target, ast.Attribute) and st.target.attr.endswith('_stage_t')
             if isinstance(st, ast.Assign) and any(x is n for x in ast.walk(st.value)):
                 tg = st.targets[0]
-                if isinstance(tg, ast.Name):
-                    # a local time stamp: every read of it feeds a *_stage_t timer (profiling only)
+                if isinstance(tg, ast.Attribute):
+                    return tg.attr == 't_start' and "'t_start'" in ast.unparse(st.value)
+                if isinstance(tg, ast.Name) and depth < 4:
                     loads = [x for x in ast.walk(fi.node) if isinstance(x, ast.Name) and x.id == tg.id and isinstance(x.ctx, ast.Load)]
-                    timers = [p for p in ast.walk(fi.node) if isinstance(p, ast.AugAssign) and isinstance(p.target, ast.Attribute)
-                              and p.target.attr.endswith('_stage_t')]
-                    ok = bool(loads) and all(any(x is y for p in timers for y in ast.walk(p.value)) for x in loads)
-                if isinstance(tg, ast.Attribute) and tg.attr == 't_start' and "'t_start'" in ast.unparse(st.value):
-                    ok = True
-            if isinstance(st, ast.AugAssign) and any(x is n for x in ast.walk(st.value)):
-                if isinstance(st.target, ast.Attribute) and st.target.attr.endswith('_stage_t'):
-                    ok = True
+                    return bool(loads) and all(_time_flow_ok(fi, x, depth + 1) for x in loads)
+                return False
+        return False
+    for fi, n in time_sites:
+        ok = _time_flow_ok(fi, n)
         ctx.ob('RNG', 'wall-clock time reaches only the documented t_start default and the *_stage_t timers', fi, ok,
                {'use': ast.unparse(n)}, node=n)
     # ---- D3 per-recording resets, no module-level state
